@@ -11,6 +11,7 @@ import (
 	"fmt"
 	"sort"
 	"strings"
+	"sync/atomic"
 
 	"github.com/mochi-mqtt/server/v2/packets"
 )
@@ -88,3 +89,92 @@ func (x *TopicsIndex) VerifTrieDump() string {
 
 // VerifRefreshDeadline exposes Client.refreshDeadline.
 func (cl *Client) VerifRefreshDeadline(keepalive uint16) { cl.refreshDeadline(keepalive) }
+
+// --- sequential-broker harness hooks -------------------------------------------------------
+
+// VerifClearExpiredClients runs the session-expiry housekeeping at virtual time dt.
+func (s *Server) VerifClearExpiredClients(dt int64) { s.clearExpiredClients(dt) }
+
+// VerifClearExpiredRetained runs the retained-message expiry housekeeping at virtual time now.
+func (s *Server) VerifClearExpiredRetained(now int64) { s.clearExpiredRetainedMessages(now) }
+
+// VerifClearExpiredInflights runs the inflight expiry housekeeping at virtual time now.
+func (s *Server) VerifClearExpiredInflights(now int64) { s.clearExpiredInflights(now) }
+
+// VerifSendDelayedLWT runs the delayed-will housekeeping at virtual time dt.
+func (s *Server) VerifSendDelayedLWT(dt int64) { s.sendDelayedLWT(dt) }
+
+// VerifPublishSysTopics publishes the $SYS topics once.
+func (s *Server) VerifPublishSysTopics() { s.publishSysTopics() }
+
+// VerifSetMaximumPacketID sets the package's own (unexported) test knob.
+func (s *Server) VerifSetMaximumPacketID(n uint32) { s.Options.Capabilities.maximumPacketID = n }
+
+// VerifOutboundIdle reports whether the client's pending-write queue is drained.
+func (cl *Client) VerifOutboundIdle() bool {
+	return len(cl.State.outbound) == 0 && atomic.LoadInt32(&cl.State.outboundQty) == 0
+}
+
+// VerifOutbufLen returns the number of bytes waiting in the client's write buffer.
+func (cl *Client) VerifOutbufLen() int {
+	cl.Lock()
+	defer cl.Unlock()
+	if cl.Net.outbuf == nil {
+		return 0
+	}
+	return cl.Net.outbuf.Len()
+}
+
+// VerifDump renders the session state of a client canonically.
+func (cl *Client) VerifDump() string {
+	var fl []string
+	for _, pk := range cl.State.Inflight.GetAll(false) {
+		exp := "0"
+		if pk.Expiry < 0 {
+			exp = "-"
+		} else if pk.Expiry > 0 {
+			exp = "+"
+		}
+		d := 0
+		if pk.FixedHeader.Dup {
+			d = 1
+		}
+		fl = append(fl, fmt.Sprintf("%05d:t%d:q%d:d%d:e%s", pk.PacketID, pk.FixedHeader.Type, pk.FixedHeader.Qos, d, exp))
+	}
+	sort.Strings(fl)
+	var subs []string
+	for f, s := range cl.State.Subscriptions.GetAll() {
+		subs = append(subs, verifHex(f)+"=("+VerifSubString(s)+")")
+	}
+	sort.Strings(subs)
+	b := func(v bool) int {
+		if v {
+			return 1
+		}
+		return 0
+	}
+	return fmt.Sprintf("id=%s v=%d clean=%d closed=%d taken=%d stopped=%d fl=[%s] rq=%d/%d sq=%d/%d pid=%d subs=[%s] sei=%d fsei=%d will=%d",
+		verifHex(cl.ID), cl.Properties.ProtocolVersion, b(cl.Properties.Clean), b(cl.Closed()), b(cl.IsTakenOver()), b(cl.StopTime() != 0),
+		strings.Join(fl, ","),
+		atomic.LoadInt32(&cl.State.Inflight.receiveQuota), atomic.LoadInt32(&cl.State.Inflight.maximumReceiveQuota),
+		atomic.LoadInt32(&cl.State.Inflight.sendQuota), atomic.LoadInt32(&cl.State.Inflight.maximumSendQuota),
+		atomic.LoadUint32(&cl.State.packetID), strings.Join(subs, ","),
+		cl.Properties.Props.SessionExpiryInterval, b(cl.Properties.Props.SessionExpiryIntervalFlag), atomic.LoadUint32(&cl.Properties.Will.Flag))
+}
+
+// VerifInfo renders the $SYS counters the properties speak about.
+func (s *Server) VerifInfo() string {
+	return fmt.Sprintf("connected=%d subs=%d retained=%d inflight=%d inflightDropped=%d msgsDropped=%d",
+		atomic.LoadInt64(&s.Info.ClientsConnected), atomic.LoadInt64(&s.Info.Subscriptions), atomic.LoadInt64(&s.Info.Retained),
+		atomic.LoadInt64(&s.Info.Inflight), atomic.LoadInt64(&s.Info.InflightDropped), atomic.LoadInt64(&s.Info.MessagesDropped))
+}
+
+// VerifWillDelayed lists the client ids with a delayed will waiting.
+func (s *Server) VerifWillDelayed() string {
+	var ids []string
+	for id := range s.loop.willDelayed.GetAll() {
+		ids = append(ids, verifHex(id))
+	}
+	sort.Strings(ids)
+	return strings.Join(ids, ",")
+}
